@@ -90,11 +90,42 @@ pub fn strategy() -> BoxedStrategy<Scenario> {
         .boxed()
 }
 
+/// every single drop/dup fault on every datagram (either direction) of the windows around the wrap
+fn single_faults_at_wrap(ws_list: &[u16]) -> Vec<Scenario> {
+    let blk = 8usize;
+    let mut out = vec![];
+    for role in [Role::Sender, Role::Receiver] {
+        for &ws in ws_list {
+            let w = ws as u64;
+            let first = emission_of_block(65534u64.saturating_sub(w).max(1), w, role);
+            let last = emission_of_block(65538, w, role) + 3;
+            for p in first..last {
+                for f in [Fate::Drop, Fate::Dup, Fate::Late] {
+                    for gap in [true, false] {
+                        if !gap && f != Fate::Drop {
+                            continue;
+                        }
+                        let mut sc = Scenario::lossless(role, blk, ws, 65538 * blk + 5, 0x15 + ws as u64);
+                        sc.fates = vec![f];
+                        sc.fates_at = p;
+                        sc.gap_ack = gap;
+                        out.push(sc);
+                    }
+                }
+            }
+        }
+    }
+    out
+}
+
 pub fn run(ctx: &Ctx) {
     sim::init();
-    ctx.set_rule("transfers of 65534..65538 and 131071..131073 blocks (blksize 8) through the real worker in both roles; windowsize from {1,2,3,7,8,16,64,1000}, from divisors of 65534/65535/65536 so that a window ends exactly before/at/after the wrap, and random <=2000; 0-2 drop/dup/swap/late faults placed in the windows that contain blocks 65534..65537. File content encodes the absolute offset, so a block attributed 65536 positions away never matches. Oracle: S1-S4 (content, final block, window, consecutive bursts) / R1, R2, R5 (ACK never ahead, file on disk at every ACK, final file) with absolute block indices, both sides complete with byte-identical data. Non-trivial = the transfer crossed the wrap and a fault hit there or a window boundary lies within 2 blocks of 65536; distinct = distinct (scenario, trace shape).");
+    ctx.set_rule("transfers of 65534..65538 and 131071..131073 blocks (blksize 8) through the real worker in both roles; windowsize from {1,2,3,7,8,16,64,1000}, from divisors of 65534/65535/65536 so that a window ends exactly before/at/after the wrap, and random <=2000; 0-2 drop/dup/swap/late faults placed in the windows that contain blocks 65534..65537. File content encodes the absolute offset, so a block attributed 65536 positions away never matches. Exhaustive part: every single drop/duplicate/late fault on every datagram of either direction in the windows around block 65536 for windowsize {1,2,4,5} (thorough: 10 sizes), 65539-block transfers, both roles. Oracle: S1-S4 (content, final block, window, consecutive bursts) / R1, R2, R5 (ACK never ahead, file on disk at every ACK, final file) with absolute block indices, both sides complete with byte-identical data. Non-trivial = the transfer crossed the wrap and a fault hit there or a window boundary lies within 2 blocks of 65536; distinct = distinct (scenario, trace shape).");
     let dirs = DirPool::new(ctx, "c15");
-    explore_n(ctx, "wrap", ctx.tier.pick(160, 4000), shards(), 32, strategy, |c: &Scenario, o| dirs.with(|d| judge(d, c, o)));
+    explore_n(ctx, "wrap", ctx.tier.pick(320, 6000), shards(), 32, strategy, |c: &Scenario, o| dirs.with(|d| judge(d, c, o)));
+    let ws_list: Vec<u16> = ctx.tier.pick(vec![1, 2, 4, 5], vec![1, 2, 3, 4, 5, 7, 8, 15, 16, 17]);
+    let cases = single_faults_at_wrap(&ws_list);
+    enumerate(ctx, "exh-single-fault-at-wrap", &cases, true, |c, o| dirs.with(|d| judge(d, c, o)));
 }
 
 pub fn replay(ctx: &Ctx, part: &str, case: &Value) -> bool {
